@@ -91,6 +91,9 @@ pub fn kprice128(l: i128, c: u64, d: u8, p: i128) -> Option<i128> {
 }
 
 pub fn gen(rng: &mut Rng, n: usize, out: &mut Vec<String>) {
+    // a tenth of the family: the staked-collateral re-scaling through the REAL oracle adapter
+    crate::mon_venue::staked_lines(rng, n / 10, out);
+    let n = n - out.len().min(n);
     for i in 0..n {
         let line = match i % 21 {
             0 => {
@@ -242,7 +245,7 @@ pub fn gen(rng: &mut Rng, n: usize, out: &mut Vec<String>) {
 
 /// (total_liq_raw bits, total_col_raw, decimals, price)
 pub fn gen_reserve_price(rng: &mut Rng) -> (i128, u64, u8, i128) {
-    let d = rng.below(13) as u8;
+    let d = if rng.chance(2, 3) { rng.below(13) as u8 } else { rng.below(25) as u8 };
     let c: u64 = match rng.below(5) {
         0 => rng.below(20),
         1 => rng.below(1_000_000),
